@@ -2,6 +2,7 @@ import Genshi.Wire
 import Genshi.WireCore
 import Genshi.Model.I18nTranslate
 import Genshi.Model.I18nExtract
+import Genshi.Model.I18nChoose
 namespace Driver.C19
 open Genshi Genshi.I18n Genshi.Sexp
 
@@ -139,6 +140,7 @@ def errOut : Err → Sexp
   | .keyError => .list [.atom "err", .atom "KeyError"]
   | .typeError => .list [.atom "err", .atom "TypeError"]
   | .stopIteration => .list [.atom "err", .atom "RuntimeError"]
+  | .attributeError => .list [.atom "err", .atom "AttributeError"]
 
 def lookupOut (l : Lookup) : Sexp := .list [ofOptStr l.domain, ofOptStr l.context, .str l.msgid]
 
@@ -184,6 +186,13 @@ def handle : List Sexp → Option Sexp
       let ps ← strs? ps; let cat ← cat? cat; let s ← tstream? s
       pure (.list [exceptOut tstreamOut (msgGenerate ps (cat.lookup none none) s),
                    exceptOut ofOptStr (msgId ps s)])
+  | [.atom "choose", .list ps, pl, cat, s] => do
+      let ps ← strs? ps; let pl ← pl.toBool?; let cat ← cat? cat; let s ← tstream? s
+      -- the catalogue families answer with the form the numeral selects
+      let ngt := fun (sg pl' : Str) => cat.lookup none none (if pl then pl' else sg)
+      match chooseCall ps pl ngt s with
+      | none => pure (.atom "unmodelled")
+      | some r => pure (exceptOut tstreamOut r)
   | [.atom "reorder", .list ds] => do
       let ds ← ds.mapM dir?
       if !dirsOk ds then pure (.atom "unmodelled") else
